@@ -134,9 +134,51 @@ pub fn run_c14(ctx: &Ctx) -> i32 {
     let deadline = if ctx.budget_s > 0 { Some(Instant::now() + Duration::from_secs(ctx.budget_s)) } else { None };
     let miri = cfg!(miri);
     let workers = if miri { 1 } else { ctx.workers };
+    // supervision of the sequential runs: a store whose eviction round never ends would otherwise hang
+    // the worker (and the check) for ever
+    let beat: Vec<AtomicU64> = (0..workers).map(|_| AtomicU64::new(0)).collect();
+    let wtid: Vec<AtomicU64> = (0..workers).map(|_| AtomicU64::new(0)).collect();
+    let wcase: Vec<AtomicU64> = (0..workers).map(|_| AtomicU64::new(u64::MAX)).collect();
+    let finished = AtomicU64::new(0);
     std::thread::scope(|s| {
-        for _ in 0..workers {
-            s.spawn(|| {
+        if !miri {
+            let (beat, wtid, wcase, finished, shared) = (&beat, &wtid, &wcase, &finished, &shared);
+            s.spawn(move || {
+                let mut last: Vec<(u64, Instant)> = beat.iter().map(|b| (b.load(Ordering::Relaxed), Instant::now())).collect();
+                while (finished.load(Ordering::Relaxed) as usize) < workers {
+                    std::thread::sleep(Duration::from_millis(500));
+                    for w in 0..workers {
+                        let b = beat[w].load(Ordering::Relaxed);
+                        if b != last[w].0 {
+                            last[w] = (b, Instant::now());
+                        } else if last[w].1.elapsed() > Duration::from_secs(15) && wcase[w].load(Ordering::Relaxed) != u64::MAX {
+                            let tid = wtid[w].load(Ordering::Relaxed) as i32;
+                            let bw = &beat[w];
+                            let verdict = gate::classify_stall(&[tid], &move || bw.load(Ordering::Relaxed), 15);
+                            let case = wcase[w].load(Ordering::Relaxed);
+                            let (sig, msg) = match verdict {
+                                Stall::Deadlock(m) => ("deadlock", m),
+                                Stall::Livelock(m) => ("livelock", m),
+                                Stall::Slow => continue,
+                            };
+                            let mut e = shared.lock().unwrap();
+                            e.violation(
+                                Viol::new(&["C14", "C16"], sig, format!("a store in sequential eviction run {} does not return: {}", case, msg)),
+                                json!({"engine":"evict-seq","case":case,"replay_cmd":format!("/verif/check C14 replay --case {}", case)}),
+                            );
+                            let ev = std::mem::replace(&mut *e, Evidence::new(ctx, "exploration", RULE_C14));
+                            std::process::exit(ev.finish());
+                        }
+                    }
+                }
+            });
+        }
+        for w in 0..workers {
+            let (beat, wtid, wcase, finished) = (&beat, &wtid, &wcase, &finished);
+            let (next, shared, limits) = (&next, &shared, &limits);
+            s.spawn(move || {
+                wtid[w].store(gate::gettid() as u64, Ordering::Relaxed);
+                BEAT.with(|b| *b.borrow_mut() = Some(&beat[w] as *const AtomicU64 as usize));
                 let mut local: BTreeMap<String, u64> = BTreeMap::new();
                 let mut fps: Vec<u64> = vec![];
                 let mut evals = 0u64;
@@ -162,6 +204,9 @@ pub fn run_c14(ctx: &Ctx) -> i32 {
                     let l = limits[rng.gen_range(0..limits.len())];
                     evals += 1;
                     let seq = (c % (nseq + nbatch)) < nseq;
+                    // concurrent batches supervise themselves
+                    wcase[w].store(if seq { c } else { u64::MAX }, Ordering::Relaxed);
+                    beat[w].fetch_add(1, Ordering::Relaxed);
                     let r = if seq { seq_run(ctx, c, l, &mut rng, &mut local) } else { batch_run(ctx, c, l, &mut rng, &mut local) };
                     match r {
                         Ok((evictions, hist)) => {
@@ -184,6 +229,8 @@ pub fn run_c14(ctx: &Ctx) -> i32 {
                         shared.lock().unwrap().sample(json!({"case": c, "limit": l, "kind": kind}));
                     }
                 }
+                wcase[w].store(u64::MAX, Ordering::Relaxed);
+                finished.fetch_add(1, Ordering::Relaxed);
                 let mut e = shared.lock().unwrap();
                 e.evaluations += evals;
                 e.merge_counters(&local);
@@ -194,6 +241,20 @@ pub fn run_c14(ctx: &Ctx) -> i32 {
         }
     });
     shared.into_inner().unwrap().finish()
+}
+
+thread_local! {
+    /// address of the worker's heartbeat counter (bumped after every command of a sequential run)
+    static BEAT: std::cell::RefCell<Option<usize>> = const { std::cell::RefCell::new(None) };
+}
+
+fn heartbeat() {
+    BEAT.with(|b| {
+        if let Some(p) = *b.borrow() {
+            // the counter lives in run_c14's frame, which outlives every worker of its thread scope
+            unsafe { (*(p as *const AtomicU64)).fetch_add(1, Ordering::Relaxed) };
+        }
+    });
 }
 
 type RunErr = (Viol, serde_json::Value);
@@ -219,6 +280,7 @@ fn seq_run(ctx: &Ctx, case: u64, l: u64, rng: &mut SmallRng, local: &mut BTreeMa
             stack.timer.advance(d);
             continue;
         }
+        heartbeat();
         let (n_before, _) = stack.content_size();
         let p0 = picks(&ctl);
         let d0 = dones(&ctl);
